@@ -40,6 +40,7 @@ def run(rep, tier):
         ng = objects.check_getattr_safety(tree, what, bad)
         nn = objects.check_node_classes(tree, what, bad)
         objects.check_metadata(tree, what, bad)
+        found[:] = [(r, m) for r, m in found if r != 'C16-metadata']     # transform's concern (C16)
         rep.count('runtime copies analysed')
         rep.count('paths enumerated', n)
         rep.count('classes with __getattr__ examined', ng)
